@@ -37,7 +37,7 @@ func c15Scalar(blind, ctx []byte) *big.Int {
 }
 
 func runC15(c *core.Ctx) {
-	n := c.Pick(600, 20000)
+	n := c.Pick(600, 60000)
 	pool := make([][]byte, 6)
 	pr := c.Rng("pool")
 	for i := range pool {
